@@ -122,6 +122,23 @@ def file_level(ctx, cases, counts):
         ok = (abs(got - expect) <= tol * max(abs(expect), 1e-6)) if kind == "Strain" else close(got, expect, tol)
         if not ok or not (lazy == got or (lazy != lazy and got != got)):
             out.append(Violation("%s scale read through a file (%s wiring): channel[:] = %r (lazy %r), the quantity that produced the voltage is %r" % (kind, wiring, got, lazy, expect), rp))
+        # the raw data type must not matter: single-precision raw data gives what the same numbers give as double-precision raw data
+        # (widening is exact; any arithmetic done before widening is not)
+        raw32 = np.array([raw, raw * 1.0000001, raw], dtype=np.float32)
+        try:
+            b2 = io.BytesIO()
+            with TdmsWriter(b2) as w:
+                w.write_segment([ChannelObject("g", "c32", raw32, P), ChannelObject("g", "c64", raw32.astype(np.float64), P)])
+            f2 = TdmsFile.read(io.BytesIO(b2.getvalue()))
+            a32, a64 = np.asarray(f2["g"]["c32"][:], dtype=np.float64), np.asarray(f2["g"]["c64"][:], dtype=np.float64)
+        except Exception as ex:  # noqa
+            out.append(Violation("%s scale on float32 raw data through a file raised %s: %s" % (kind, type(ex).__name__, ex), rp))
+            continue
+        counts["file_level"] += 1
+        fin = np.isfinite(a64)
+        if (np.isfinite(a32) != fin).any() or not np.all(np.abs(a32[fin] - a64[fin]) <= 1e-9 * np.maximum(np.abs(a64[fin]), 1e-12)):
+            out.append(Violation("%s scale (%s wiring): float32 raw data gives %r, the same numbers as float64 raw data give %r" % (kind, wiring, list(a32), list(a64)),
+                                 dict(rp, raw32=[float(v) for v in raw32])))
         if len(out) > 3:
             break
     return out
